@@ -52,3 +52,83 @@ Example C03_example_accepted :
   | Err _ => []
   end = ["1"; "A"; "B"; "C"; "D"; "E"; "Doe"; "John"; "beyond"; "more"; "x"].
 Proof. vm_compute. reflexivity. Qed.
+
+(* ================================================================================== *)
+(* Encoder side (Proofs/EncodeLeaves.v): Element.to_er7 emits every leaf that the tree holds, in
+   order.  seg_enc_leaves s are the non-blank ENCODED leaf texts (sc_enc) of the tree in order;
+   line_text_leaves splits the encoded line all the way down as above.  Together with
+   C03_segment_keeps_leaves: the leaves of encode(parse(line)) are the encoded leaves of the line,
+   none dropped, none reordered - for EVERY accepted line of a table segment or Z-segment:
+   surplus fields beyond the table (kept as unnamed children, or as <SEG>_i of type varies in
+   open-ended segments), surplus components and subcomponents (kept unnamed), blank pieces,
+   trailing empties, repeated non-repeatable fields. *)
+From HL7 Require Import Model.Encode Model.Wf Model.Escape Gen.Tables.
+From HL7 Require Import Proofs.RoundTripStr Proofs.RoundTripCore Proofs.RoundTripZ Proofs.RoundTripSeg
+  Proofs.RoundTripTables Proofs.RoundTripSegTables Proofs.EncodeLeaves.
+
+(* any tree that satisfies the placement invariant seg_ok (children under the names of the
+   structure in order, then the unnamed ones; base-typed / untyped / varies elements emit all
+   their children; encoded leaves contain no separator) *)
+Theorem C03_encoder_emits_all_leaves : forall t e s, ec_ok e -> seg_ok t e s ->
+  exists out, enc_segment t e s false = Ok out /\
+              (bmem CR out = false -> line_text_leaves e out = seg_enc_leaves s).
+Proof. intros t e s He. exact (enc_segment_leaves t e He s). Qed.
+Print Assumptions C03_encoder_emits_all_leaves.
+
+(* every line that parse_segment accepts for a segment of a supported version (the wildcard
+   ANYHL7SEGMENT and MSH apart), with any leaf encoder that never emits a separator *)
+Theorem C03_segment_leaves_preserved : forall v t, tables_of v = Some t ->
+  forall e, ec_ok e ->
+  forall leaf, (forall d x y, leaf d x = Ok y -> sep_free e y) ->
+  forall sn r, In (sn, r) (t_segments t) -> sn <> unbs "ANYHL7SEGMENT" -> sn <> unbs "MSH" ->
+  forall text s, seg_name_of text = sn ->
+    parse_segment t TOLERANT e leaf text None = Ok s ->
+    exists out, enc_segment t e s false = Ok out /\
+                (bmem CR out = false -> line_text_leaves e out = seg_enc_leaves s).
+Proof.
+  intros v t Ht e He leaf HL sn r Hin Ha Hm text s Hname Hp.
+  destruct (shipped_table_facts v t Ht) as [Hst [Hvar _]].
+  destruct (shipped_segment_ok v t sn r Ht Hin Ha Hm) as [Hl [srows [-> [H3 [Hup [Hmsh [Hz [Hc [Hrows [Hnof HnoC]]]]]]]]]].
+  apply (enc_segment_leaves t e He s). apply seg_ok_of_shape.
+  - exact (parse_table_segment_shape t e leaf Hst Hvar sn srows H3 Hup Hmsh Hz Hl Hc Hrows Hnof HnoC text s Hname Hp).
+  - exact (parse_segment_clean t TOLERANT e leaf text None s HL Hp).
+Qed.
+Print Assumptions C03_segment_leaves_preserved.
+
+(* ... and of a Z-segment *)
+Theorem C03_segment_leaves_preserved_Z : forall v t, tables_of v = Some t ->
+  forall e, ec_ok e ->
+  forall leaf, (forall d x y, leaf d x = Ok y -> sep_free e y) ->
+  forall a b, bupper a = a -> bupper b = b ->
+  forall text s, seg_name_of text = zname a b ->
+    parse_segment t TOLERANT e leaf text None = Ok s ->
+    exists out, enc_segment t e s false = Ok out /\
+                (bmem CR out = false -> line_text_leaves e out = seg_enc_leaves s).
+Proof.
+  intros v t Ht e He leaf HL a b Ha Hb text s Hname Hp.
+  destruct (shipped_table_facts v t Ht) as [Hst [Hvar [Hzf _]]].
+  assert (Hup : upper (zname a b) = zname a b) by (unfold zname, upper; cbn [map]; now rewrite Ha, Hb).
+  assert (Hnf : forall i, slookup (name_idx (zname a b) i) (t_fields t) = None)
+    by (intros i; now apply no_z_fields_lookup).
+  apply (enc_segment_leaves t e He s). apply seg_ok_of_shape.
+  - exact (parse_z_segment_shape t e leaf Hst Hvar a b Hup Hnf text s Hname Hp).
+  - exact (parse_segment_clean t TOLERANT e leaf text None s HL Hp).
+Qed.
+Print Assumptions C03_segment_leaves_preserved_Z.
+
+(* the hypothesis on the leaf encoder holds for hl7apy's: every output is an `escape` output (C06) *)
+Theorem C03_leaf_encoder_emits_no_separator : forall v e d x y, ec_valid esc_family_0 e = true ->
+  leaf_enc v TOLERANT e d x = Ok y -> sep_free e y.
+Proof. intros v e d x y. exact (leaf_enc_sep_free v e d x y). Qed.
+Print Assumptions C03_leaf_encoder_emits_no_separator.
+
+(* the non-canonical line above: nothing is lost by encoding either *)
+Example C03_example_encoded :
+  match parse_segment Gen.Tables_v2_5.tables TOLERANT default_ec (leaf_enc "2.5" TOLERANT default_ec) ex_line None with
+  | Ok s => match enc_segment Gen.Tables_v2_5.tables default_ec s false with
+            | Ok out => (map BS (line_text_leaves default_ec out), map BS (seg_enc_leaves s), bmem CR out)
+            | Err _ => ([], [], true) end
+  | Err _ => ([], [], true)
+  end = (["1"; "A"; "B"; "C"; "D"; "E"; "Doe"; "John"; "beyond"; "more"; "x"],
+         ["1"; "A"; "B"; "C"; "D"; "E"; "Doe"; "John"; "beyond"; "more"; "x"], false).
+Proof. vm_compute. reflexivity. Qed.
